@@ -1386,7 +1386,7 @@ fn id_from_words(rng: &mut Rng, words: &[u32]) -> Identifier {
 
 fn viewkey(out: &mut Out, rng: &mut Rng, thorough: bool) {
 	let secp = Secp256k1::with_caps(secp::ContextFlag::Commit);
-	let n_seeds = if thorough { 6 } else { 2 };
+	let n_seeds = if thorough { 4 } else { 2 };
 	let mut stat: std::collections::BTreeMap<String, u64> = Default::default();
 	macro_rules! bump {
 		($k:expr) => {
@@ -1554,9 +1554,12 @@ fn viewkey(out: &mut Out, rng: &mut Rng, thorough: bool) {
 								}
 							}
 							// (2) through a real bulletproof: proof::create with ProofBuilder, proof::rewind with the view key
-							let do_rewind = thorough
-								|| (class == "covered" && (ai == 1 || rng.chance(1, if ai == 0 { 2 } else { 4 })))
-								|| (class != "covered" && rng.chance(1, 6));
+							let do_rewind = if thorough {
+								class == "covered" || rng.chance(1, 2)
+							} else {
+								(class == "covered" && (ai == 1 || rng.chance(1, if ai == 0 { 2 } else { 4 })))
+									|| (class != "covered" && rng.chance(1, 6))
+							};
 							if do_rewind {
 								let proof = proof::create(&keychain, &nb, amount, &id, sw, commit, None).unwrap();
 								proofs += 1;
@@ -1605,7 +1608,7 @@ fn viewkey(out: &mut Out, rng: &mut Rng, thorough: bool) {
 fn history(out: &mut Out, rng: &mut Rng, thorough: bool) {
 	global::set_local_chain_type(ChainTypes::AutomatedTesting);
 	let secp = Secp256k1::with_caps(secp::ContextFlag::Commit);
-	let n_seeds = if thorough { 8 } else { 2 };
+	let n_seeds = if thorough { 4 } else { 2 };
 	let mut stat: std::collections::BTreeMap<String, u64> = Default::default();
 	macro_rules! bump {
 		($k:expr) => {
@@ -1619,7 +1622,7 @@ fn history(out: &mut Out, rng: &mut Rng, thorough: bool) {
 		let fresh = || ExtKeychain::from_seed(&seed, is_test).unwrap();
 		// families of identifiers that share their 16 path bytes and differ in the depth byte only
 		let mut families: Vec<[u32; 4]> = vec![[7, 0, 0, 0], [0, 0, 0, 0], [0x8000_0000, 0, 0, 0], [7, 7, 7, 7]];
-		for _ in 0..(if thorough { 6 } else { 1 }) {
+		for _ in 0..(if thorough { 3 } else { 1 }) {
 			families.push([rand_index(rng), rand_index(rng), rand_index(rng), rand_index(rng)]);
 		}
 		for (fi, w) in families.iter().enumerate() {
@@ -1680,7 +1683,7 @@ fn history(out: &mut Out, rng: &mut Rng, thorough: bool) {
 				("ascending-depth", vec![0, 1, 2, 3, 4]),
 				("descending-depth", vec![4, 3, 2, 1, 0]),
 			];
-			for _ in 0..(if thorough { 4 } else { 1 }) {
+			for _ in 0..(if thorough { 3 } else { 1 }) {
 				let mut o: Vec<usize> = (0..5).collect();
 				shuffle(rng, &mut o);
 				// ask some identifiers twice
@@ -1702,7 +1705,7 @@ fn history(out: &mut Out, rng: &mut Rng, thorough: bool) {
 							n_same += 1;
 						}
 						out.line(
-							&format!("keys hist {} {}#{} {} {} {}", kind, oname, step, idh, sw_name(sw), amount),
+							&format!("keys hist {} seed{}:{}#{} {} {} {}", kind, si, oname, step, idh, sw_name(sw), amount),
 							if same { "same" } else { "differs" },
 						);
 						if !same {
@@ -1752,7 +1755,7 @@ fn history(out: &mut Out, rng: &mut Rng, thorough: bool) {
 								n_same += 1;
 							}
 							out.line(
-								&format!("keys hist {} {}#{} {} {} {}", cname, oname, pos, hex(&ids[i].to_bytes()), sw_name(*sw), amount),
+								&format!("keys hist {} seed{}:{}#{} {} {} {}", cname, si, oname, pos, hex(&ids[i].to_bytes()), sw_name(*sw), amount),
 								if same { "same" } else { "differs" },
 							);
 							if !same {
